@@ -29,27 +29,26 @@ AllCalls ==
 Built == obj # <<>>
 Call(c) ==
   /\ UNCHANGED fl
-  /\
-  \/ /\ c[1] = "build"
-     /\ obj' = <<NewFromArray(SAB, SAB, src, "int").out>>
-     /\ hist' = <<src, <<>>>>
-     /\ oc' = "ok" /\ UNCHANGED src
-  \/ /\ c[1] = "poke_src"
-     /\ src' = PokeSrc(src, obj, c[2], c[3], 1 - src[c[2] + 1][c[3] + 1]).out.src
-     /\ oc' = "ok" /\ UNCHANGED <<obj, hist>>
-  \/ /\ c[1] = "poke_obj" /\ Built
-     /\ Dom_Code(obj[1].a1, c[2]) /\ Dom_Code(obj[1].a2, c[3])
-     /\ oc' = PokeObj(src, obj[1], c[2], c[3], 7).oc
-     /\ UNCHANGED <<src, obj, hist>>
-  \/ /\ c[1] = "transpose" /\ Built
-     /\ obj' = <<Transposed(obj[1])>>
-     /\ hist' = <<hist[1], Append(hist[2], c)>>
-     /\ oc' = "ok" /\ UNCHANGED src
-  \/ /\ c[1] = "positional" /\ Built
-     /\ Dom_PosSeq(obj[1], c[2], c[3])
-     /\ obj' = <<AsPositional(obj[1], c[2], c[3])>>
-     /\ hist' = <<hist[1], Append(hist[2], c)>>
-     /\ oc' = "ok" /\ UNCHANGED src
+  /\ \/ /\ c[1] = "build"
+        /\ obj' = <<NewFromArray(SAB, SAB, src, "int").out>>
+        /\ hist' = <<src, <<>>>>
+        /\ oc' = "ok" /\ UNCHANGED src
+     \/ /\ c[1] = "poke_src"
+        /\ src' = PokeSrc(src, obj, c[2], c[3], 1 - src[c[2] + 1][c[3] + 1]).out.src
+        /\ oc' = "ok" /\ UNCHANGED <<obj, hist>>
+     \/ /\ c[1] = "poke_obj" /\ Built
+        /\ Dom_Code(obj[1].a1, c[2]) /\ Dom_Code(obj[1].a2, c[3])
+        /\ oc' = PokeObj(src, obj[1], c[2], c[3], 7).oc
+        /\ UNCHANGED <<src, obj, hist>>
+     \/ /\ c[1] = "transpose" /\ Built
+        /\ obj' = <<Transposed(obj[1])>>
+        /\ hist' = <<hist[1], Append(hist[2], c)>>
+        /\ oc' = "ok" /\ UNCHANGED src
+     \/ /\ c[1] = "positional" /\ Built
+        /\ Dom_PosSeq(obj[1], c[2], c[3])
+        /\ obj' = <<AsPositional(obj[1], c[2], c[3])>>
+        /\ hist' = <<hist[1], Append(hist[2], c)>>
+        /\ oc' = "ok" /\ UNCHANGED src
 
 Init == /\ src \in [1..2 -> [1..2 -> {0, 1}]]
         /\ obj = <<>> /\ oc = "ok" /\ hist = <<>> /\ fl = <<TRUE, FALSE>>
